@@ -382,7 +382,8 @@ def generate(seed, tier):
             op['inputs'] = [[copy.deepcopy(tg), regen_value(orng, world, tg)]
                             for tg, _ in observed['inputs']]
     return {'prop': ID, 'seed': seed, 'tier': tier, 'world': world,
-            'schedule': s, 'ops': ops, 'observed': observed}
+            'schedule': s, 'ops': ops, 'observed': observed,
+            'reuse_containers': Rng(seed, 'reuse').chance(.5)}
 
 
 # ------------------------------------------------------------------- execute
@@ -438,12 +439,33 @@ def sheet_wide(P, t, val):
     return big
 
 
-def lib_inputs(world, P, m, ins):
+def lib_inputs(world, P, m, ins, pool=None):
+    """``pool``: {node id: container} kept by the caller across the
+    calculations of one history - a caller who updates his array IN PLACE and
+    calculates again passes the very same list / ndarray object each time."""
     d, skipped = {}, 0
     for t, v in ins:
         key = target_id(world, P, t)
         if key not in m.dsp.nodes and t[0] != 'blank':
             skipped += 1   # never create nodes by spelling an id
+            continue
+        if pool is not None and not (t[0] == 'range' and len(t) > 2):
+            new = to_lib(v)
+            old = pool.get(key)
+            if isinstance(new, list) and isinstance(old, list) and \
+                    len(old) == len(new) and len(old[0]) == len(new[0]):
+                for i, row in enumerate(new):
+                    old[i][:] = row          # same rows, new contents
+                d[key] = old
+                continue
+            if hasattr(new, 'dtype') and hasattr(old, 'dtype') and \
+                    old.dtype == new.dtype and old.shape == new.shape:
+                old[...] = new
+                d[key] = old
+                continue
+            if isinstance(new, list) or hasattr(new, 'dtype'):
+                pool[key] = new
+            d[key] = new
             continue
         # (a blank cell inside a referenced rectangle, spelt canonically, is
         # the one exception: the library's range assembler looks such cells
@@ -575,7 +597,7 @@ def apply_op(world, P, m, s, op, log, stats):
     f = fault()
     stats['ops'][k] = stats['ops'].get(k, 0) + 1
     if k in ('calc', 'calc_fault'):
-        ins, _ = lib_inputs(world, P, m, op['inputs'])
+        ins, _ = lib_inputs(world, P, m, op['inputs'], s.get('_pool'))
         outs = lib_outputs(world, P, m, op['outputs'])
         f.armed = k == 'calc_fault'
         before = f.fired
@@ -690,8 +712,8 @@ def pins_of(world, ins):
     return cells, pos
 
 
-def observe_calc(world, P, s, m, op):
-    ins, skipped = lib_inputs(world, P, m, op['inputs'])
+def observe_calc(world, P, s, m, op, pool=None):
+    ins, skipped = lib_inputs(world, P, m, op['inputs'], pool)
     outs = lib_outputs(world, P, m, op['outputs'])
     kw = {'inputs': ins}
     if outs:
@@ -752,7 +774,11 @@ def covers_blank(world, ins):
 
 
 def execute(trace, env=None):
-    world, s = trace['world'], trace['schedule']
+    world, s = trace['world'], dict(trace['schedule'])
+    if trace.get('reuse_containers'):
+        # the caller keeps ONE list / ndarray per overridden range or name
+        # and updates it in place between the calculations on the model
+        s['_pool'] = {}
     P = Placement(s['placement'])
     log = EventLog()
     fault()
@@ -799,7 +825,8 @@ def execute(trace, env=None):
                 'history_ops_raised', 0) + 1
             log.add('client', op['op'] + '-raised', err=type(ex).__name__)
     try:
-        obs, ins, outs, sol, skipped = observe_calc(world, P, s, m, obs_op)
+        obs, ins, outs, sol, skipped = observe_calc(world, P, s, m, obs_op,
+                                                    s.get('_pool'))
     except Exception as ex:
         import traceback
         fail('C07.fresh', 'observed calculation raised %r' % ex,
